@@ -25,12 +25,13 @@ PINNED = C.V + "/harness/root/cmd/c11/scripts"
 
 class Sched:
     __slots__ = ("idx", "ncallers", "desc", "cfg", "script", "acts", "rets", "wire", "viol", "final", "status",
-                 "stack", "lastp", "died")
+                 "stack", "lastp", "died", "epilogue")
 
     def __init__(self, idx, n, desc, cfg):
         self.idx, self.ncallers, self.desc, self.cfg = idx, n, desc, cfg
         self.script, self.acts, self.rets, self.wire, self.viol = [], [], [], [], []
         self.final, self.status, self.stack, self.lastp, self.died = None, None, None, "", None
+        self.epilogue = []
 
 
 def parse_trace(path):
@@ -65,6 +66,8 @@ def parse_trace(path):
                 s.lastp = p[2]
             elif k == "D":
                 s.died = p[2]
+            elif k == "G":
+                s.epilogue.append(p[2])
             elif k == "E":
                 s.status = p[2]
     return out
@@ -275,6 +278,9 @@ def evaluate(ctx, prop, profile, scheds, m, mf, stats, tag, hb=None):
                     stats["retries_ordered"] += int(mm.group(2))
         if ok:
             validated += 1
+        for g in s.epilogue:
+            if g.startswith("window="):
+                stats["epilogue_request_in_the_reconnect_window:" + g[7:].split(":")[0]] += 1
         # ---- distribution ------------------------------------------------------------------------
         for l in s.script:
             w = l.split(" ")
